@@ -2,8 +2,6 @@
 
 package storage
 
-import "os"
-
 // Verification hooks are compiled out unless the `verif` build tag is set.
 
 func verifPoint(string, uint64) {}
@@ -13,5 +11,3 @@ func verifAutoFlush(autoFlushCache bool) bool { return autoFlushCache }
 func verifOpened(*fileStore, bool) {}
 
 func verifClosed(*fileStore) {}
-
-func verifWALFile(f *os.File) readWriteSyncCloser { return f }
